@@ -8,7 +8,10 @@
     i.e. under any interleaving, for any scenario cfg (number of workers, job bodies that enqueue further
     jobs or terminate the pool, any number of client threads with arbitrary programs).
     fx = true: the repaired code (cv_finished_.notify_all(), fixes/C10/01), fx = false: the shipped code.
-    sp = true: with spurious condition-variable wake-ups. *)
+    sp = true: with spurious condition-variable wake-ups.
+    Reachability also closes under EXTRA notifications (Pool.xstep): any thread that is alive and not blocked may at any time
+    issue an additional notify_one / notify_all on either condition variable (destructor also notifying cv_finished_, a worker
+    passing a wake-up on, ...); all theorems below hold for that larger set of behaviours. *)
 From Coq Require Import List Arith.
 From TLXV Require Import C10.Pool C10.PoolLemmas C10.PoolSafety C10.PoolWait C10.PoolCands C10.PoolLive C10.PoolLive2 C10.PoolLive3
   C10.PoolLive4 C10.PoolQueue C10.PoolTerm C10.PoolExamples.
